@@ -32,6 +32,13 @@ func newCache[H Hash]() cache[H] {
 }
 
 func (c *cache[H]) getHeight(h uint32) *inbox[H] {
+	// Messages cached for heights below h can never be used again (the height
+	// was skipped, e.g. by ledger synchronization), drop them.
+	for k := range c.mail {
+		if k < h {
+			delete(c.mail, k)
+		}
+	}
 	if m, ok := c.mail[h]; ok {
 		delete(c.mail, h)
 		return m
